@@ -6,16 +6,59 @@ from .common import call_shape, fn_table, gen_faults, gen_tape, simple_sel
 
 PROP = "C02"
 JUDGE = ("C02.",)
-PROGRAMS = ["forms"]
+PROGRAMS = ["forms", "genctx"]
 RUNS = {"quick": 3000, "thorough": 150000}
 
-GEN_FNS = ("gen", "genloop")
+GEN_FNS = ("gen", "genloop", "genretry")
+
+
+def gen_generator_history(rng):
+    """A probe comes or goes while an instrumented generator is suspended, and the generator is
+    then advanced or thrown into (gen4 catches that and yields again without binding anything):
+    the streams of the probes that are active are still exactly the binding histories."""
+    def sel(chain, focus):
+        return {"levels": [{"fn": f, "caps": [], "sibs": []} for f in chain], "focus": {"var": focus, "as": focus}}
+
+    choices = [(["g"], "a"), (["gen4"], "x"), (["gen4", "g"], "a"), (["gen"], "x"), (["gen2"], "i"), (["D"], "d")]
+    ops = []
+    for pid in ("P", "Q"):
+        chain, focus = rng.choice(choices)
+        ops.append({"op": "mk", "id": pid, "sels": [sel(chain, focus)], "inv": "C02.stream"})
+    tape = lambda: gen_tape(rng, 6, hi=12, odd=0.6)
+    gfn = rng.choice(["gen4", "gen4", "gen", "gen2"])
+    ops += [{"op": "enter", "id": "P"},
+            {"op": "gen_new", "gen": "g0", "fn": gfn, "nargs": 1},
+            {"op": "gen_next", "gen": "g0", "tape": tape(), "faults": {}}]
+    live = ["P"]
+    for _ in range(rng.randint(2, 6)):
+        r = rng.random()
+        if r < 0.2 and "Q" not in live and not any(o == {"op": "enter", "id": "Q"} for o in ops):
+            ops.append({"op": "enter", "id": "Q"})
+            live.append("Q")
+        elif r < 0.3 and live:
+            ops.append({"op": "exit", "id": live.pop()})
+        elif r < 0.55:
+            ops.append({"op": "gen_throw", "gen": "g0", "tape": tape(), "faults": {}})
+        elif r < 0.75:
+            ops.append({"op": "gen_next", "gen": "g0", "tape": tape(), "faults": {}})
+        else:
+            ops.append({"op": "call", "fn": rng.choice(["g", "D"]), "nargs": 1, "tape": tape(), "faults": {}})
+    ops.append({"op": "gen_close", "gen": "g0", "tape": [], "faults": {}})
+    ops.append({"op": "call", "fn": "g", "nargs": 1, "tape": [], "faults": {}})
+    ops.append({"op": "call", "fn": "D", "nargs": 1, "tape": tape(), "faults": {}})
+    for pid in reversed(live):
+        ops.append({"op": "exit", "id": pid})
+    return {"prog": "genctx", "ops": ops, "relax_inflight": True, "activation_inv": "C02.activation"}
 
 
 def gen(rng, tier, quarantine=()):
+    if "no-generator-histories" not in quarantine and rng.random() < 0.08:
+        return gen_generator_history(rng)
     prog, fns = fn_table("forms")
     fns = [(q, f) for q, f in fns if not _quarantined(q, quarantine)]
     qual, fnir = rng.choice(fns)
+    if rng.random() < 0.12 and any(q in GEN_FNS for q, _ in fns):
+        qual, fnir = rng.choice([(q, f) for q, f in fns if q in GEN_FNS])
     generated = None
     if "no-generated-programs" not in quarantine and rng.random() < 0.5:
         from .. import progen
@@ -47,7 +90,7 @@ def gen(rng, tier, quarantine=()):
             g = f"g{c}"
             ops.append({"op": "gen_new", "gen": g, "fn": qual, "nargs": 1})
             for _ in range(rng.randint(1, 6)):
-                k = rng.choice(["gen_next"] * 4 + ["gen_send"] * 3 + ["gen_throw", "gen_close"])
+                k = rng.choice(["gen_next"] * 4 + ["gen_send"] * 3 + ["gen_throw"] * 2 + ["gen_close"])
                 ops.append({"op": k, "gen": g, "tape": gen_tape(rng, 8),
                             "faults": gen_faults(rng, 8, rng.choice([0, 0, 1]))})
             ops.append({"op": "gen_close", "gen": g, "tape": [], "faults": {}})
